@@ -102,6 +102,7 @@ func parseRaces(out string) []raceReport {
 		}
 		lines := strings.Split(blk, "\n")
 		var tops []string
+		synthetic := false
 		for i, l := range lines {
 			tl := strings.TrimSpace(l)
 			if (strings.HasPrefix(tl, "Write at") || strings.HasPrefix(tl, "Read at") || strings.HasPrefix(tl, "Previous write at") || strings.HasPrefix(tl, "Previous read at") ||
@@ -112,6 +113,11 @@ func parseRaces(out string) []raceReport {
 					if fl == "" {
 						break
 					}
+					if j == i+1 && (strings.HasPrefix(fl, "runtime.racewrite(") || strings.HasPrefix(fl, "runtime.raceread(")) {
+						// explicit race.Read/race.Write annotation inside a sync primitive
+						// (WaitGroup.Add concurrent with Wait): usage check, not a memory access
+						synthetic = true
+					}
 					if strings.HasPrefix(fl, "runtime.") || strings.HasPrefix(fl, "sync.") || strings.HasPrefix(fl, "sync/atomic.") || strings.HasPrefix(fl, "internal/") {
 						continue
 					}
@@ -121,7 +127,11 @@ func parseRaces(out string) []raceReport {
 			}
 		}
 		sort.Strings(tops)
-		reps = append(reps, raceReport{sig: "data-race:" + strings.Join(tops, "~"), text: strings.TrimSpace(blk)})
+		kind := "data-race:"
+		if synthetic {
+			kind = "sync-primitive-misuse:"
+		}
+		reps = append(reps, raceReport{sig: kind + strings.Join(tops, "~"), text: strings.TrimSpace(blk)})
 	}
 	return reps
 }
@@ -131,6 +141,9 @@ func parseRaces(out string) []raceReport {
 // state packages below it). Races elsewhere (tx pool timers, logging) are recorded as labels
 // and notes, not as violations of this property.
 func feedsResult(r raceReport) bool {
+	if !strings.HasPrefix(r.sig, "data-race:") {
+		return false
+	}
 	for _, pkg := range []string{"evm.exeWithCPUParallelVeirfy", "evm.tryValidate", "evm.validateRoutine", "evm.txQueue", "evm.initTxQueue",
 		"evm.(*EVMApp).OnExecute", "evm.(*EVMApp).OnCommit", "evm.(*EVMApp).SaveReceipts", "evm.(*EVMApp).genExecFun", "evm.(*EVMApp).execute",
 		"evm.(*EVMApp).query", "evm.(*EVMApp).Query", "evm.(*KeyValueHistoryManager)", "evm.(*kvBatch)",
@@ -261,6 +274,7 @@ func genRaceCase(t *rapid.T) Case {
 	c.B.Procs = rapid.SampledFrom([]int{0, 2, 16}).Draw(t, "procsB")
 	c.WorkersC = rapid.SampledFrom(workerChoices).Draw(t, "workersC")
 	c.QueryEvery = rapid.Bool().Draw(t, "queryEvery")
+	c.Repeat = rapid.IntRange(1, 3).Draw(t, "repeat")
 	return c
 }
 
